@@ -1,14 +1,16 @@
 #!/bin/bash
-# usage: try_mutant.sh <patch.diff> <prop> [<prop> ...]
-# applies the patch to /repo, rebuilds egsim, runs the quick batches without touching evidence, reverts.
+# usage: [TM_WORKERS=n] [TM_WALL=s] try_mutant.sh <patch.diff> <prop> [<prop> ...]
+# Applies the patch to /repo, builds a private egsim against it (build directory /tmp/tm-target, so
+# that a batch running from /verif/target is not disturbed), runs the quick batches without
+# touching evidence, and reverts /repo. The registered checks always build in /verif/target.
 patch=$1; shift
 cd /repo && git diff --quiet || { echo "repo dirty"; exit 2; }
 git -C /repo apply "$patch" || { echo "patch does not apply"; exit 2; }
-cd /verif && ./check --build || { git -C /repo checkout -- .; exit 2; }
+( cd /verif/sim && CARGO_TARGET_DIR=/tmp/tm-target cargo build --release --offline 2>/tmp/tm-build.log >/dev/null ) || { tail -20 /tmp/tm-build.log; git -C /repo checkout -- .; exit 2; }
+cp /tmp/tm-target/release/egsim /tmp/tm-egsim
+git -C /repo checkout -- .
 mkdir -p /tmp/mutrep; rm -rf /tmp/mutrep/*; cp /verif/known-findings.json /tmp/mutrep/
 for p in "$@"; do
-  VERIF_ROOT=/tmp/mutrep ./target/release/egsim batch --prop $p --no-evidence 2>&1 | grep -v "^KNOWN\|^NOTE" | cut -c1-330 | tail -4
+  VERIF_ROOT=/tmp/mutrep /tmp/tm-egsim batch --prop $p --no-evidence ${TM_WORKERS:+--workers $TM_WORKERS} ${TM_WALL:+--wall $TM_WALL} 2>&1 | grep -v "^KNOWN\|^NOTE" | cut -c1-330 | tail -4
   cp /verif/known-findings.json /tmp/mutrep/ 2>/dev/null
 done
-git -C /repo checkout -- .
-cd /verif && ./check --build
